@@ -28,7 +28,7 @@ def execOp (g : Unit → List CPt × List CPt) (op : String) (args : List String
       if instr.startsWith "range" then
         match ofHex h with
         | some b => match verifyRange (gensOf (g ())) instr b with
-          | some v => verdict v
+          | some v => verdict v ++ showTrace (traceRange instr b)
           | none => "bad-op"
         | none => "bad-op"
       else opVerify args
@@ -48,6 +48,7 @@ def execOp (g : Unit → List CPt × List CPt) (op : String) (args : List String
   | "ae" => opAe args
   | "kdf" => opKdf args
   | "dlog" => opDlog args
+  | "dlogseq" => opDlogSeq args
   | "drop" => opDrop args
   | "debug" => opDebug args
   | "fresh" => "distinct"     -- the specification: nothing ever repeats (theorems of C19)
